@@ -599,6 +599,101 @@ func clientRedial(rep *hx.Report) {
 	time.Sleep(50 * time.Millisecond)
 }
 
+// a server that accepts and reads but never answers (first request of a new connection), or answers once and then goes
+// silent (a later request on the kept-alive connection): with Client.Timeout set every callback must still be invoked
+// exactly once - with an error - within a bounded time, not only when the engine stops
+func clientSilentServer(rep *hx.Report) {
+	ln, err := net.Listen("tcp", "127.0.0.1:0")
+	if err != nil {
+		return
+	}
+	defer ln.Close()
+	var answerFirst int32
+	go func() {
+		for {
+			c, err := ln.Accept()
+			if err != nil {
+				return
+			}
+			go func(c net.Conn) {
+				defer c.Close()
+				buf := make([]byte, 4096)
+				first := atomic.LoadInt32(&answerFirst) == 1
+				for {
+					n, err := c.Read(buf)
+					if err != nil {
+						return
+					}
+					if first && n > 0 {
+						first = false
+						c.Write([]byte("HTTP/1.1 200 OK\r\nContent-Length: 2\r\nX-Id: silent-1\r\n\r\nok"))
+					}
+				}
+			}(c)
+		}
+	}()
+	ce := nbhttp.NewEngine(nbhttp.Config{})
+	if err := ce.Start(); err != nil {
+		return
+	}
+	defer ce.Stop()
+	const timeout = 400 * time.Millisecond
+	for variant := 0; variant < 2; variant++ {
+		atomic.StoreInt32(&answerFirst, int32(variant))
+		cli := &nbhttp.Client{Engine: ce, Timeout: timeout, MaxConnsPerHost: 1}
+		nreq := 1 + variant
+		counts := make([]int32, nreq)
+		got := make([]string, nreq)
+		done := make(chan int, 8)
+		for i := 0; i < nreq; i++ {
+			i := i
+			u, _ := url.Parse(fmt.Sprintf("http://%s/silent?i=%d", ln.Addr().String(), i))
+			req := &http.Request{Method: "GET", URL: u, Host: u.Host, Header: http.Header{}, Proto: "HTTP/1.1", ProtoMajor: 1, ProtoMinor: 1}
+			cli.Do(req, func(res *http.Response, conn net.Conn, err error) {
+				if atomic.AddInt32(&counts[i], 1) == 1 {
+					if err != nil {
+						got[i] = "error " + err.Error()
+					} else {
+						got[i] = "response " + res.Header.Get("X-Id")
+					}
+				}
+				done <- i
+			})
+			select {
+			case <-done:
+			case <-time.After(timeout + 5*time.Second):
+			}
+		}
+		time.Sleep(100 * time.Millisecond)
+		name := []string{"silent-from-the-start", "answers-once-then-silent"}[variant]
+		rep.Case("client/silent-server/"+name, true)
+		rep.Ops += nreq
+		rep.Stat("client.silent-server." + name)
+		replay := map[string]interface{}{"harness": "httpe2e", "part": "nbhttp.Client against a server that stops answering", "variant": name,
+			"client": fmt.Sprintf("nbhttp.Client{Timeout: %v, MaxConnsPerHost: 1}", timeout), "requests": nreq, "callbacks": counts, "outcomes": got}
+		for i := 0; i < nreq; i++ {
+			n := atomic.LoadInt32(&counts[i])
+			silent := i == nreq-1 // the request the server never answers
+			switch {
+			case n == 0:
+				rep.Add(hx.Finding{Kind: "oracle", Property: "C10", Signature: "client-callback-missing-silent-server",
+					What: fmt.Sprintf("%s: the callback of request %d was not invoked within Timeout+5s (Timeout %v): a request whose server never answers must end with an error", name, i, timeout), Replay: replay})
+			case n > 1:
+				rep.Add(hx.Finding{Kind: "oracle", Property: "C10", Signature: "client-callback-twice",
+					What: fmt.Sprintf("%s: the callback of request %d was invoked %d times", name, i, n), Replay: replay})
+			case silent && !strings.HasPrefix(got[i], "error "):
+				rep.Add(hx.Finding{Kind: "oracle", Property: "C10", Signature: "client-wrong-response",
+					What: fmt.Sprintf("%s: request %d was never answered but its callback got %q", name, i, got[i]), Replay: replay})
+			case !silent && got[i] != "response silent-1":
+				rep.Add(hx.Finding{Kind: "oracle", Property: "C10", Signature: "client-wrong-response",
+					What: fmt.Sprintf("%s: request %d was answered but its callback got %q", name, i, got[i]), Replay: replay})
+			}
+		}
+		go cli.Close()
+		time.Sleep(30 * time.Millisecond)
+	}
+}
+
 // the recorded finding D16: Connection: close + response larger than the socket buffers + slow reader
 // (the same mechanism over TLS keeps the same signature)
 func closeTruncation(rep *hx.Report, t transport) {
@@ -667,6 +762,7 @@ func main() {
 		}
 	}
 	clientRedial(rep)
+	clientSilentServer(rep)
 	closeTruncation(rep, transport{})
 	closeTruncation(rep, transport{TLS: true, Ver: "1.3"})
 	rep.Write(*out)
